@@ -134,6 +134,12 @@ func (r *run) play(id int, dir string, seed uint64) error {
 			return fmt.Errorf("L1 info store: %w", err)
 		}
 		st = l
+	case "bridge":
+		l := &bridgeStore{path: filepath.Join(dir, fmt.Sprintf("bridge-%d.sqlite", id))}
+		if err := l.reopen(); err != nil {
+			return fmt.Errorf("bridge store: %w", err)
+		}
+		st = l
 	case "rec", "":
 		st = &recStore{}
 		b.Proc = "rec"
@@ -143,7 +149,7 @@ func (r *run) play(id int, dir string, seed uint64) error {
 	r.cfg = nodeCfg{chunk: b.Chunk, tag: b.Tag, buf: b.Buf, rdPath: filepath.Join(dir, fmt.Sprintf("rd-%d.sqlite", id)),
 		st: st, compat: &compatData{}}
 	defer func() {
-		for _, p := range []string{r.cfg.rdPath, filepath.Join(dir, fmt.Sprintf("l1-%d.sqlite", id))} {
+		for _, p := range []string{r.cfg.rdPath, filepath.Join(dir, fmt.Sprintf("l1-%d.sqlite", id)), filepath.Join(dir, fmt.Sprintf("bridge-%d.sqlite", id))} {
 			for _, suf := range []string{"", "-wal", "-shm"} {
 				os.Remove(p + suf)
 			}
